@@ -658,10 +658,11 @@ func c09OIDs(c *Ctx) {
 }
 
 // c09PSS: RSA-PSS agreement between the signing and the verifying side.
-//   T-PSS-salt: every rsa.PSSOptions built in package x509 (handed to Signer.Sign by the creators, to rsa.VerifyPSS by
-//   checkSignature) has SaltLength == rsa.PSSSaltLengthEqualsHash, the value the encoded RSASSA-PSS parameters announce;
-//   T-PSS-opts: every creator's Sign call can receive such options (on the isRSAPSS path) — otherwise an object whose
-//   AlgorithmIdentifier says RSASSA-PSS carries a PKCS#1 v1.5 signature and fails its own verification.
+//
+//	T-PSS-salt: every rsa.PSSOptions built in package x509 (handed to Signer.Sign by the creators, to rsa.VerifyPSS by
+//	checkSignature) has SaltLength == rsa.PSSSaltLengthEqualsHash, the value the encoded RSASSA-PSS parameters announce;
+//	T-PSS-opts: every creator's Sign call can receive such options (on the isRSAPSS path) — otherwise an object whose
+//	AlgorithmIdentifier says RSASSA-PSS carries a PKCS#1 v1.5 signature and fails its own verification.
 func c09PSS(c *Ctx) {
 	isPSSOpts := func(t types.Type) bool {
 		return strings.HasSuffix(t.String(), "crypto/rsa.PSSOptions")
